@@ -1,5 +1,4 @@
 import EgVerif.Proofs.Delivery
-import EgVerif.Props.C14
 import EgVerif.Gen.FactsC15
 /-!
 # C15 — MQTT delivery: every eligible subscriber gets each message; QoS1 at-least-once
@@ -34,11 +33,11 @@ theorem send_all_eligible_any_order (ops : List Op) (lv : List Level) (q : QoS) 
   constructor
   · rintro ⟨sq, hm, hq, hc⟩
     have hm' := (hperm.mem_iff).mp hm
-    obtain ⟨⟨f, hf, hmat⟩, _⟩ := C14.qos_is_own_max ops lv c sq hm'
+    obtain ⟨⟨f, hf, hmat⟩, _⟩ := Topic.qos_is_own_max ops lv c sq hm'
     exact ⟨hc, f, sq, hf, hmat, hq⟩
   · rintro ⟨hc, f, sq, hf, hmat, hq⟩
     have hhit : (c, sq) ∈ find (run State.init ops).trie lv :=
-      (C14.routing_after_any_history ops lv (c, sq)).mpr ((C14.mem_specFind _ _ _).mpr ⟨f, hf, hmat⟩)
+      (Topic.routing_after_any_history ops lv (c, sq)).mpr ((Topic.mem_specFind _ _ _).mpr ⟨f, hf, hmat⟩)
     obtain ⟨mx, hmx⟩ := ownMax_isSome_of_mem hhit
     have hle := (ownMax_some hmx).2 sq hhit
     exact ⟨mx, (hperm.mem_iff).mpr (mem_collapseMax.mpr hmx), Nat.le_trans hq hle, hc⟩
